@@ -126,6 +126,8 @@ type FnCtx struct {
 	mapRangeLoops int
 	inlineStack   []string
 	imprecise     []string
+	labels        map[ast.Stmt]string // labelled loops / switches
+	loopsLost     bool // the function has fewer loops than loops.lock records for it
 	brokenContracts map[string]bool
 	hintMode      int // >0 while a loop invariant (a proof hint, not a claim) is evaluated
 	loopInitVar   map[token.Pos]*types.Var
